@@ -186,7 +186,9 @@ pub fn clear_claims_survive(ctx: &mut Ctx, case: &Value) {
         let a = super::c12::at_mut(&mut payload, &site).as_array_mut().unwrap();
         let existing = a.iter().position(|x| x.get("...").is_some());
         match existing {
-            Some(k) if rng.chance(1, 2) => { a[k]["title"] = json!(sentinel); }
+            Some(k) if rng.chance(1, 3) => { a[k]["title"] = json!(sentinel); }
+            // an element whose only member is `...` with a value that is no digest string: a claim like any other
+            _ if rng.chance(1, 2) => { let at = rng.below(a.len() + 1); a.insert(at, json!({"...": [sentinel]})); }
             _ => { let at = rng.below(a.len() + 1); a.insert(at, json!({"...": "to be continued", "title": sentinel})); }
         }
     }
